@@ -425,3 +425,42 @@ func HarnessC09Traffic(a []int) {
 	close(conn.done)
 	verifCover("C09.traffic.end")
 }
+
+func init() {
+	verifHarnesses["HarnessC09Relay"] = HarnessC09Relay
+}
+
+// HarnessC09Relay: a = {reader: 0 immediately, 1 after half a resend interval, 2 after one and a half}:
+// a connection-state response is offered to a waiting heartbeat for at most one resend interval.
+func HarnessC09Relay(a []int) {
+	sock := newVSock()
+	conn := vTunnel(sock, false)
+	c := nondetU8()
+	conn.channel = c
+	res := &knxnet.ConnStateRes{Channel: nondetU8(), Status: knxnet.ErrCode(nondetU8())}
+	hb := make(chan knxnet.ErrCode)
+	err := conn.handleConnStateRes(res, hb)
+	verifAssert("C09.relay.channel_check", (err == nil) == (res.Channel == c))
+	resend := int64(conn.config.ResendInterval)
+	switch a[0] {
+	case 1:
+		verifSleep(resend / 2)
+	case 2:
+		verifSleep(resend + resend/2)
+	}
+	got, have := knxnet.ErrCode(0), false
+	select {
+	case got = <-hb:
+		have = true
+	default:
+	}
+	verifSleep(2 * resend)
+	alive := verifQuiesce()
+	verifAssert("C09.relay.no_goroutine_left", alive == 0)
+	if a[0] <= 1 && res.Channel == c {
+		verifCover("C09.relay.delivered")
+		verifAssert("C09.relay.delivered", have && got == res.Status)
+	} else {
+		verifAssert("C09.relay.expired_or_foreign", !have)
+	}
+}
